@@ -59,8 +59,7 @@ impl VarSize for ScriptLangTag<'_> {
         if bytes.is_empty() {
             return None;
         }
-        let end = data
-            .as_bytes()
+        let end = bytes
             .iter()
             .position(|b| *b == b',')
             .map(|pos| pos + 1) // include comma
